@@ -167,51 +167,66 @@ func trainReplay(b *trainBeh) (string, bool) {
 
 /* ---------------------- symbolic multi-step trajectories ------------------ */
 
-// trajectory runs K real training steps of the model of case cs and checks every step against the
-// symbolic one-step map. Returns (violation, known finding witnessed, steps checked).
+// trajectory runs K real training steps of the model of case cs (one or several FC layers with activations and a
+// loss) and checks every step against the symbolic one-step map. Returns (violation, known finding witnessed, steps).
 func trajectory(cs *sym.Case, rng *rand.Rand, K int, lr float64) (string, bool, int) {
 	env := sym.Assign(cs, rng, 0)
-	out := cs.Inputs[0].Dims[0]
-	feat := cs.Inputs[2].Dims[1]
-	fc, err := layers.NewFC(&layers.FCConfig{Inputs: feat, Outputs: out})
-	if err != nil {
-		return "HARNESS: " + err.Error(), false, 0
+	// one persistent layer object per fc instruction; its parameters live behind the Weights() pointers
+	type param struct {
+		node int // input node id (1-based)
+		ptr  *tensor.Tensor
 	}
-	ws := fc.Weights()
-	wt, _ := bind.New(cs.Inputs[0].Dims, env["w"], true)
-	bt, _ := bind.New(cs.Inputs[1].Dims, env["b"], true)
-	*ws[0].Value, *ws[1].Value = wt, bt
-	x, _ := bind.New(cs.Inputs[2].Dims, env["x"], false)
-	t, _ := bind.New(cs.Inputs[3].Dims, env["t"], false)
-	sgd := optimizers.NewSGD(&optimizers.SGDConfig{LearningRate: lr})
-	var grads, asis [2][]*term.T
-	for _, g := range cs.Grads {
-		if g.Node <= 2 {
-			grads[g.Node-1] = g.Data
+	var params []param
+	layerOf := map[int]*layers.FC{}
+	inputs := make([]tensor.Tensor, len(cs.Inputs))
+	for i, in := range cs.Inputs {
+		t, err := bind.New(in.Dims, env[in.Name], in.Tracked)
+		if err != nil {
+			return "HARNESS: " + err.Error(), false, 0
 		}
+		inputs[i] = t
+	}
+	for ci, ins := range cs.Code {
+		if ins.Op != "fc" {
+			continue
+		}
+		wn, bn := ins.Args[0], ins.Args[1]
+		fc, err := layers.NewFC(&layers.FCConfig{Inputs: 1, Outputs: cs.Inputs[wn-1].Dims[0]})
+		if err != nil {
+			return "HARNESS: " + err.Error(), false, 0
+		}
+		ws := fc.Weights()
+		*ws[0].Value, *ws[1].Value = inputs[wn-1], inputs[bn-1]
+		params = append(params, param{wn, ws[0].Value}, param{bn, ws[1].Value})
+		layerOf[ci] = fc
+	}
+	sgd := optimizers.NewSGD(&optimizers.SGDConfig{LearningRate: lr})
+	grads, asis := map[int][]*term.T{}, map[int][]*term.T{}
+	for _, g := range cs.Grads {
+		grads[g.Node] = g.Data
 	}
 	for _, g := range cs.Asis {
-		if g.Node <= 2 {
-			asis[g.Node-1] = g.Data
-		}
+		asis[g.Node] = g.Data
 	}
 	known := false
 	reg := bind.NewRegistry() // the activation and loss OBJECTS persist across the steps, as in a real training loop
 	for k := 0; k < K; k++ {
-		// forward pass through the real components, following the case's program
-		nodes := []tensor.Tensor{*ws[0].Value, *ws[1].Value, x, t}
-		for _, ins := range cs.Code {
+		nodes := append([]tensor.Tensor{}, inputs...)
+		for _, p := range params {
+			nodes[p.node-1] = *p.ptr
+		}
+		for ci, ins := range cs.Code {
 			var o tensor.Tensor
 			var err error
 			if ins.Op == "fc" {
-				o, err = fc.Forward(x)
+				o, err = layerOf[ci].Forward(nodes[ins.Args[2]-1])
 			} else {
 				args := make([]tensor.Tensor, len(ins.Args))
 				for i, a := range ins.Args {
 					args[i] = nodes[a-1]
 				}
 				par := ins.Par
-				par.Inst = 100 + len(nodes)
+				par.Inst = 100 + ci
 				o, _, err = bind.ApplyIn(reg, ins.Op, par, args)
 			}
 			if err != nil {
@@ -219,64 +234,66 @@ func trajectory(cs *sym.Case, rng *rand.Rand, K int, lr float64) (string, bool, 
 			}
 			nodes = append(nodes, o)
 		}
-		loss := nodes[len(nodes)-1]
-		if err := tensor.BackPropagate(loss); err != nil {
+		if err := tensor.BackPropagate(nodes[len(nodes)-1]); err != nil {
 			return fmt.Sprintf("step %d: BackPropagate failed: %v", k, err), false, k
 		}
 		// expectation at the real current weights
-		var want, wantA [2][]term.Interval
+		want, wantA := map[int][]term.Interval{}, map[int][]term.Interval{}
 		skip := false
-		for p := 0; p < 2; p++ {
-			for _, tm := range grads[p] {
+		for _, p := range params {
+			for _, tm := range grads[p.node] {
 				iv := tm.Allowed(env)
 				if iv.Unstable || !iv.Finite() || (!cs.Ties && iv.Lo != iv.Hi) {
 					skip = true
 				}
-				want[p] = append(want[p], iv)
+				want[p.node] = append(want[p.node], iv)
 			}
-			for _, tm := range asis[p] {
-				wantA[p] = append(wantA[p], tm.Allowed(env))
+			for _, tm := range asis[p.node] {
+				wantA[p.node] = append(wantA[p.node], tm.Allowed(env))
 			}
 		}
-		for p := 0; p < 2; p++ {
-			if err := sgd.Update(ws[p].Value); err != nil {
-				return fmt.Sprintf("step %d: Update of parameter %d failed: %v", k, p, err), false, k
+		for _, p := range params {
+			if err := sgd.Update(p.ptr); err != nil {
+				return fmt.Sprintf("step %d: Update of parameter %s failed: %v", k, cs.Inputs[p.node-1].Name, err), false, k
 			}
-			(*ws[p].Value).ResetGradContext(true)
+			(*p.ptr).ResetGradContext(true)
 		}
-		names := []string{"w", "b"}
-		for p := 0; p < 2; p++ {
-			dims, flat, err := bind.Read(*ws[p].Value)
+		for _, p := range params {
+			name := cs.Inputs[p.node-1].Name
+			dims, flat, err := bind.Read(*p.ptr)
 			if err != nil {
 				return err.Error(), false, k
 			}
-			if fmt.Sprint(dims) != fmt.Sprint(cs.Inputs[p].Dims) {
-				return fmt.Sprintf("step %d: parameter %s changed shape to %v", k, names[p], dims), false, k
+			if fmt.Sprint(dims) != fmt.Sprint(cs.Inputs[p.node-1].Dims) {
+				return fmt.Sprintf("step %d: parameter %s changed shape to %v", k, name, dims), false, k
 			}
-			if ctx := bind.Context(*ws[p].Value); !ctx.Tracked || ctx.Spent || ctx.HasGrad {
-				return fmt.Sprintf("step %d: parameter %s is not a fresh tracked leaf after Update + Reset", k, names[p]), false, k
+			if ctx := bind.Context(*p.ptr); !ctx.Tracked || ctx.Spent || ctx.HasGrad {
+				return fmt.Sprintf("step %d: parameter %s is not a fresh tracked leaf after Update + Reset", k, name), false, k
 			}
 			if !skip {
 				for i := range flat {
-					old := env[names[p]][i]
+					old := env[name][i]
 					step := func(iv term.Interval) (lo, hi, tol float64) {
 						a, b := old-lr*iv.Lo, old-lr*iv.Hi
 						return math.Min(a, b), math.Max(a, b), math.Abs(lr)*iv.Tol() + 4e-16*(math.Abs(old)+math.Abs(lr*iv.Lo)) + 1e-300
 					}
-					lo, hi, tol := step(want[p][i])
+					lo, hi, tol := step(want[p.node][i])
 					if !(flat[i] >= lo-tol && flat[i] <= hi+tol) {
-						if len(wantA[p]) > i {
-							lo2, hi2, tol2 := step(wantA[p][i])
+						if len(wantA[p.node]) > i {
+							lo2, hi2, tol2 := step(wantA[p.node][i])
 							if flat[i] >= lo2-tol2 && flat[i] <= hi2+tol2 {
 								known = true
 								continue
 							}
 						}
-						return fmt.Sprintf("step %d: %s[%d] moved from %v to %v; gradient descent at the current weights gives [%v, %v]", k, names[p], i, old, flat[i], lo, hi), false, k
+						return fmt.Sprintf("step %d: %s[%d] moved from %v to %v; gradient descent at the current weights gives [%v, %v]", k, name, i, old, flat[i], lo, hi), false, k
 					}
 				}
 			}
-			env[names[p]] = flat
+		}
+		for _, p := range params {
+			_, flat, _ := bind.Read(*p.ptr)
+			env[cs.Inputs[p.node-1].Name] = flat
 		}
 	}
 	return "", known, K
